@@ -82,7 +82,7 @@ package messageview
 //@ func New
 //@   serves C15
 //@   modifies nothing
-//@   ensures result != nil && fresh(result)
+//@   ensures result != nil && fresh(result) && !result.chunked
 //@ func (*MessageView).SkipBody
 //@   serves C15
 //@   requires mv != nil
